@@ -132,6 +132,12 @@ pub fn prop_c03(u: &Url, other: Option<&Url>) -> Option<String> {
             (None, _, Some(_)) => return Some("domain without host".into()),
             _ => {}
         }
+        // a host whose text is an IP literal must be of the IP kind (what a receiver of the string parses)
+        if let Some(Host::Domain(d)) = u.host() {
+            if u.is_special() && (d.parse::<std::net::Ipv4Addr>().is_ok() || d.starts_with('[')) {
+                return Some(format!("host() is Domain({:?}) but the text is an IP literal", d));
+            }
+        }
         if u.has_host() && u.host_str().map(|h| !s.contains(h)).unwrap_or(false) {
             return Some("host_str not in serialization".into());
         }
